@@ -9,3 +9,4 @@ extern crate alloc;
 pub mod hashers;
 pub mod f17;
 pub mod fri;
+pub mod fz;
